@@ -3,6 +3,8 @@
 // The functions exercise each construct of the supported subset at least once.
 package sample
 
+import "math/bits"
+
 // ---- integers ----------------------------------------------------------------------------------
 
 func DivMod(a, b int) (int, int) { return a / b, a % b }
@@ -306,4 +308,147 @@ func Script(limit int, xs []int) (int, int, int, bool, int) {
 	k := s.PushAll(xs)
 	a, b, ok := s.PopTwo()
 	return k, a, b, ok, s.Size()
+}
+
+// ---- function-typed parameters / fields and in-out slice parameters (TransSpec.InOut; trans_func.go) ----------------
+
+// Exch writes its slice parameter in place: it is handed back to the caller.
+func Exch[T any](s []T, i, j int) { s[i], s[j] = s[j], s[i] }
+
+// NoExch has the same type and writes nothing: used as a value it needs an adapter.
+func NoExch[T any](s []T, i, j int) {}
+
+// ExchIf: a hook with a result.
+func ExchIf(s []int, i, j int) bool {
+	if s[i] > s[j] {
+		s[i], s[j] = s[j], s[i]
+		return true
+	}
+	return false
+}
+
+// Bubble calls a pure function value and a slice-writing function value; s comes back to the caller.
+func Bubble[T any](s []T, less func(T, T) bool, exch func([]T, int, int)) int {
+	n := 0
+	for i := 0; i < len(s); i++ {
+		for j := len(s) - 1; j > i; j-- {
+			if less(s[j], s[j-1]) {
+				exch(s, j, j-1)
+				n++
+			}
+		}
+	}
+	return n
+}
+
+// DryRun passes its parameter on to an in-out position, with a package function as the hook (adapter).
+func DryRun(s []int, less func(int, int) bool) int { return Bubble(s, less, NoExch[int]) }
+
+// Pass: a function value with a result that also writes the slice.
+func Pass(s []int, step func([]int, int, int) bool) int {
+	n := 0
+	for i := 0; i+1 < len(s); i++ {
+		if step(s, i, i+1) && n >= 0 {
+			n++
+		}
+	}
+	return n
+}
+
+// FirstLast: pure function value inside an andb / orb (no short circuit needed) and with an index operand (needed).
+func FirstLast(s []int, less func(int, int) bool, a, b int) bool {
+	return less(a, b) || len(s) > 0 && less(s[0], s[len(s)-1])
+}
+
+// Sorter: a struct with a function-typed field; the method passes a field to an in-out position.
+type Sorter[T any] struct {
+	data   []T
+	before func(T, T) bool
+	swaps  int
+}
+
+func (b *Sorter[T]) Sort() int {
+	n := Bubble(b.data, b.before, Exch[T])
+	b.swaps += n
+	return b.swaps
+}
+
+func (b *Sorter[T]) Min() (T, bool) {
+	var zero T
+	if len(b.data) == 0 {
+		return zero, false
+	}
+	m := b.data[0]
+	for _, v := range b.data {
+		if b.before(v, m) {
+			m = v
+		}
+	}
+	return m, true
+}
+
+// SortWith / MinWith: native drivers for the two methods (not translated)
+func SortWith(s []int, before func(int, int) bool, swaps int) int {
+	b := Sorter[int]{data: s, before: before, swaps: swaps}
+	return b.Sort()
+}
+
+func MinWith(s []int, before func(int, int) bool) (int, bool) {
+	b := Sorter[int]{data: s, before: before}
+	return b.Min()
+}
+
+// ---- [BitsCode] uint64 words: int(u >> c) / int(u & c), math/bits.OnesCountN, a struct literal as a return operand ----
+
+type Words struct {
+	w []uint64
+	n int
+}
+
+func WordIdx(n uint) (int, int, int, int) { return int(n >> 6), int(n & 63), int(n % 100), int(n / 2) }
+
+func Pop64(x uint64, y uint32) int {
+	return bits.OnesCount64(x)*10000 + bits.OnesCount32(y)*100 + bits.OnesCount8(uint8(x)) + bits.OnesCount(uint(y))*1000000
+}
+
+// SetBit grows the word list and sets a bit; returns a copy with the population count cached
+func (w *Words) SetBit(k uint) Words {
+	idx := int(k >> 6)
+	for idx >= len(w.w) {
+		w.w = append(w.w, 0)
+	}
+	w.w[idx] |= 1 << (k & 63)
+	s := make([]uint64, len(w.w))
+	copy(s, w.w)
+	c := 0
+	for _, v := range s {
+		c += bits.OnesCount64(v)
+	}
+	return Words{w: s, n: c}
+}
+
+func WordsScript(a, b uint64, k uint) (int, int, uint64, int) {
+	var w Words
+	w.w = append(w.w, a, b)
+	c := w.SetBit(k)
+	d := Words{n: 7}
+	return c.n, len(c.w) + len(d.w) + d.n, c.w[len(c.w)-1], len(w.w)
+}
+
+// ---- [BitsCode] named results: documentation-style (explicit return) and assigned + bare return ----
+
+func Locate(num uint) (index int, mask uint64) { return int(num >> 6), uint64(1) << (num & 63) }
+
+func NamedSum(s []int, limit int) (total int, clipped bool) {
+	for _, v := range s {
+		if total+v > limit {
+			clipped = true
+			return
+		}
+		total += v
+	}
+	if total < 0 {
+		return 0, true
+	}
+	return
 }
